@@ -22,6 +22,9 @@ Definition DQ : ascii := ascii_of_N 34.   (* double quote *)
 Definition BSL : ascii := ascii_of_N 92.  (* backslash *)
 Definition SL : ascii := ascii_of_N 47.   (* slash *)
 
+(** linear-time list reversal (List.rev is quadratic); equal to [rev] (Proofs/JsonFacts.v) *)
+Definition rev_fast {A} (l : list A) : list A := rev_append l [].
+
 Definition is_empty (s : bytes) : bool := match s with [] => true | _ => false end.
 Definition is_some {A} (o : option A) : bool := match o with Some _ => true | None => false end.
 
@@ -281,13 +284,13 @@ Fixpoint trim_start_slash (s : bytes) : bytes :=
   | c :: r => if code c =? 47 then trim_start_slash r else s
   | [] => []
   end.
-Definition trim_end_slash (s : bytes) : bytes := rev (trim_start_slash (rev s)).
+Definition trim_end_slash (s : bytes) : bytes := rev_fast (trim_start_slash (rev_fast s)).
 
 (** str::split('/'): [cur] holds the current part reversed *)
 Fixpoint split_slash (s : bytes) (cur : bytes) : list bytes :=
   match s with
-  | [] => [rev cur]
-  | c :: r => if code c =? 47 then rev cur :: split_slash r [] else split_slash r (c :: cur)
+  | [] => [rev_fast cur]
+  | c :: r => if code c =? 47 then rev_fast cur :: split_slash r [] else split_slash r (c :: cur)
   end.
 
 Definition DOT : ascii := ascii_of_N 46.
@@ -300,7 +303,7 @@ Definition lpath_try_from (v : bytes) : res bytes :=
   else if existsb part_illegal (split_slash t []) then Err else Ok t.
 
 Definition starts_with_slash (v : bytes) : bool := match v with c :: _ => code c =? 47 | [] => false end.
-Definition ends_with_slash (v : bytes) : bool := starts_with_slash (rev v).
+Definition ends_with_slash (v : bytes) : bool := starts_with_slash (rev_fast v).
 
 (** str::find('/') as the prefix before the first slash *)
 Fixpoint before_slash (v : bytes) : option bytes :=
@@ -402,7 +405,7 @@ Fixpoint trim_ws_start_rev (s : bytes) : bytes :=
            end
   end.
 
-Definition rust_trim (s : bytes) : bytes := rev (trim_ws_start_rev (rev (trim_ws_start s))).
+Definition rust_trim (s : bytes) : bytes := rev_fast (trim_ws_start_rev (rev_fast (trim_ws_start s))).
 
 (** create_object: [object_id.trim()] then validate_object_id (repo.rs:524,543;
     validate/mod.rs:32-39); the trimmed id is what the inventory stores *)
